@@ -169,6 +169,18 @@ func runC02(c *rt.C) {
 			}
 			model.Delete(string(KeyBytes(h.key)))
 			hk.live, hk.deadEpoch = false, epoch()
+			if mem == "go" && r.Intn(2) == 0 {
+				// Go-managed memory only (the node is still valid memory), immediately and in the same
+				// epoch: deleting the node a second time must fail and change nothing — the item no
+				// longer exists. (The count is compared at the next snapshot.)
+				again := w.DeleteNode(h.n)
+				trace = append(trace, fmt.Sprintf("DeleteNode(same handle again)=%v", again))
+				c.Sig("deletenode-handle-again/%s/%v", hcls, again)
+				if again {
+					fail("deletenode-result", "DeleteNode(handle of k%d version %d) succeeded a second time in the same epoch", h.key, h.version)
+					break
+				}
+			}
 		case x < 84: // GetNode
 			n := w.GetNode(db.Item(kid, "probe"))
 			trace = append(trace, fmt.Sprintf("GetNode(k%d)=%v", kid, n != nil))
@@ -239,7 +251,7 @@ func init() {
 		Rule: "each case = one seeded random program of Put2/Delete/Delete2/GetNode+DeleteNode/DeleteNode(stale handle, Go memory)/GetNode/NewSnapshot/Close over 2-12 keys and 1-4 writers, " +
 			"memory mode and comparator rotate with the case index; every result is compared with a reference set, every snapshot scanned and counted. " +
 			"evaluations = API calls checked; distinct = (operation, key-state class, result) triples observed, key-state class ∈ {never, live-born-this-epoch, live-born-earlier, live-reborn-this-epoch, deleted-this-epoch, deleted-earlier}",
-		Assumptions: []string{"one goroutine drives all writers (sequential semantics)", "a node handle is used only while its node has not been deleted"},
+		Assumptions: []string{"one goroutine drives all writers (sequential semantics)", "a node handle is used only while its node has not been deleted, except for an immediate second DeleteNode in the same epoch with Go-managed memory (must fail without side effects)"},
 		Cases: func(t string) int {
 			if t == "thorough" {
 				return 6000
